@@ -5,6 +5,7 @@ from __future__ import annotations
 import functools
 import json
 import itertools
+import typing
 
 PROP = "C03"
 PROP_FILE = "PwVerif/Props/C03.lean"
@@ -56,6 +57,9 @@ THEOREMS = [
     "C03_replace_keeps_order",
     "C03_replace_keeps_priority",
     "C03_replace_reversed_witness",
+    "C03_connect_many_seq",
+    "C03_connect_many_order",
+    "C03_connect_many_witness",
 ]
 RULE = (
     "family `prod`: the full product of 0-4 connections x every connection order x every upstream state "
@@ -112,7 +116,7 @@ EXPLANATION = (
 POOL = list(range(1, 10)) + list(range(101, 106))
 # adversarial values (nodes_c03.make / tag): objects whose duck-typed surface lies about them
 ADV = (200, 201, 202, 203, 204, 205, 206, 210, 211, 212, 213, 214, 220, 221, 222, 223, 224, 225, 226, 227,
-       230, 231, 232, 240, 241, 242, 243, 250, 251, 252, 253, 254)
+       230, 231, 232, 240, 241, 242, 243, 250, 251, 252, 253, 254, 260, 261, 262, 263)
 # 250.. are mutable (a list / a dict); the pairs the harness, as the other holder of the object, can turn into one
 # another in place
 MUTATIONS = {(250, 251), (251, 250), (250, 254), (254, 250), (252, 253), (253, 252)}
@@ -124,6 +128,7 @@ _I3 = (("x", int), ("y", str), ("z", None))
 _U3 = (("x", None), ("y", None), ("z", None))
 _F3 = (("x", float), ("y", list), ("z", None))
 _G3 = (("x", list[int]), ("y", dict[str, int]), ("z", None))
+_T3 = (("x", tuple[int, int]), ("y", typing.Literal[1, 2]), ("z", None))
 _O3 = (("ox", None), ("oy", None), ("oz", None))
 SPECS = {
     "SrcU": ((("a", None),), (("o", None),), None),
@@ -136,6 +141,8 @@ SPECS = {
     "MM": (_U3, _O3, ("m", "M3")),
     "CF": (_F3, _O3, None),
     "CG": (_G3, _O3, None),
+    "CT": (_T3, _O3, None),
+    "MT": (_U3, _O3, ("c", "CT")),
     "CGC": (_G3, _O3, None),
     "MG": (_U3, _O3, ("c", "CG")),
     "MGT": (_G3, _O3, ("c", "CG")),
@@ -227,6 +234,14 @@ def _ref_admit(hint, v):
         # first-element sampling gives the same verdict: how deep valid_value looks is C04's subject)
         (et,) = typing.get_args(hint)
         return list in type(v).__mro__ and all(et in type(e).__mro__ and type(e) is not bool for e in list.__iter__(v))
+    if origin is tuple:
+        ets = typing.get_args(hint)
+        return tuple in type(v).__mro__ and tuple.__len__(v) == len(ets) and all(
+            et in type(e).__mro__ and type(e) is not bool for et, e in zip(ets, tuple.__iter__(v)))
+    if origin is typing.Literal:
+        # a literal admits the very values it lists: same type, same value (the pool's candidates are honest builtins)
+        return any(type(v) is type(a) and v == a for a in typing.get_args(hint)) if type(v) in (int, str, bool, float) \
+            else False
     if origin is dict:
         kt, vt = typing.get_args(hint)
         return dict in type(v).__mro__ and all(kt in type(a).__mro__ and vt in type(b).__mro__
@@ -1270,6 +1285,154 @@ def _for_points():
             for w in FOR_WRONG for first in (True, False)]
 
 
+# several partners in ONE connect call
+CM_HOW = ["all", "head-then-rest", "rest-then-last", "pairs", "with-dup", "with-refused", "from-output"]
+
+
+def _cm_case(k, perm, states, how, idx):
+    """x of the consumer is connected to k upstream outputs, some or all of them in ONE `connect(a, b, …)` call; the
+    partner listed last in a call is the most recently connected one"""
+    cons = "CF" if idx % 5 == 4 else "C3"
+    specs = ["SrcU", "SrcU", "SrcU", "SrcU", "SrcS", cons]
+    nodes, _c, _l = layout(specs)
+    cn = 5
+    x, y, z = nodes[cn]["ins"]
+    outs = [nodes[j]["outs"][0] for j in range(4)]
+    sout = nodes[4]["outs"][0]
+    good = {"C3": (9, 101, 5), "CF": (204, 206, 5)}[cons]
+    upv = {"C3": (1, 2, 3, 4), "CF": (204, 212, 240, 231)}[cons]
+    upbad = {"C3": (102, 220, 241, 103), "CF": (3, 221, 232, 1)}[cons]
+    ops = [["set", y, good[1]], ["set", z, good[2]]]
+    if idx % 3 == 0:
+        ops.append(["set", x, good[0]])
+    for j in range(k):
+        if states[j] == "data":
+            ops.append(["set", outs[j], upv[j]])
+        elif states[j] == "bad":
+            ops.append(["set", outs[j], upbad[j]])
+    seq = [outs[j] for j in perm]
+    if how == "all":
+        ops.append(["connectm", x, seq])
+    elif how == "head-then-rest":
+        ops += [["connect", x, seq[0]], ["connectm", x, seq[1:]]]
+    elif how == "rest-then-last":
+        ops += [["connectm", x, seq[:-1]], ["connect", x, seq[-1]]]
+    elif how == "pairs":
+        ops += [["connectm", x, seq[i:i + 2]] for i in range(0, len(seq), 2)]
+    elif how == "with-dup":
+        ops += [["connect", x, seq[-1]], ["connectm", x, seq + [seq[0]]]]
+    elif how == "with-refused":
+        # the str-hinted output is refused by a strict int / float input: the partners before it stay connected
+        ops.append(["connectm", x, seq[:1] + [sout] + seq[1:]])
+        ops.append(["connectm", x, seq[1:]])
+    else:
+        ops += [["connect", x, seq[0]], ["connectm", seq[-1], [x, nodes[cn]["ins"][2]]], ["connectm", x, seq[1:-1]]]
+    ops.append(["run", cn, [], []])
+    if idx % 2:
+        ops += [["disconnect", x, seq[-1]], ["run", cn, [], []], ["connectm", x, [seq[-1], seq[0]]], ["run", cn, [], []]]
+    return {"fam": "cm", "nodes": specs, "ops": ops,
+            "dims": {"k": k, "perm": list(perm), "states": list(states), "how": how}}
+
+
+def _cm_points():
+    pts = []
+    for k in (2, 3, 4):
+        for perm in itertools.permutations(range(k)):
+            for states in itertools.product(("data", "nd", "bad"), repeat=k):
+                for how in CM_HOW:
+                    pts.append((k, perm, states, how))
+    return pts
+
+
+# values that compare equal to a well-typed value but are of another type, delivered AFTER (or before) their twin
+EQ_PAIRS = [(0, 260, 261), (1, 1, 203), (1, 1, 262), (1, 2, 263)]  # (input, valid value, equal ill-typed value)
+EQ_PATH = ["set", "assign", "setinputs", "runkw", "fetch", "MT", "link"]
+
+
+def _eqv_case(pair, p1, p2, same, order, idx):
+    """two consumers with a subscripted / Literal hint; a valid value reaches one of them over `p1`, then a value
+    that is == to it but ill-typed is delivered over `p2` to the same or the other node (or the other way round): what
+    was validated earlier in the session — anywhere — must not matter"""
+    which, good, bad = EQ_PAIRS[pair]
+    specs = ["SrcU", "SrcU", "CT", "CT", "MT", "C3"]
+    nodes, _c, _l = layout(specs)
+    lab = "xy"[which]
+    other = {0: 1, 1: 260}[which]  # a valid value for the other hinted input
+    ops = []
+    for n in (2, 3, 5 + 0):
+        if nodes[n]["spec"] == "CT":
+            ops += [["set", nodes[n]["ins"][1 - which], other], ["set", nodes[n]["ins"][2], 5]]
+    mt = 4
+    ops += [["set", nodes[mt]["ins"][1 - which], other], ["set", nodes[mt]["ins"][2], 5]]
+    first, second = (good, bad) if order == "good-first" else (bad, good)
+
+    def deliver(path, n, v, up):
+        tgt = nodes[n]["ins"][which]
+        if path == "set":
+            return [["set", tgt, v], ["run", n, [], []]]
+        if path == "assign":
+            return [["assign", tgt, v], ["run", n, [], []]]
+        if path == "setinputs":
+            return [["setinputs", n, [[lab, v]], []], ["run", n, [], []]]
+        if path == "runkw":
+            return [["run", n, [[lab, v]], []]]
+        if path == "fetch":
+            return [["set", up, v], ["connect", tgt, up], ["run", n, [], []], ["disconnect", tgt, up]]
+        if path == "MT":
+            return [["set", nodes[mt]["ins"][which], v], ["run", mt, [], []]]
+        sx = nodes[5]["ins"][2]
+        return [["link", sx, tgt], ["set", sx, v], ["link", sx, None], ["run", n, [], []]]
+
+    a, b = (2, 2) if same else (2, 3)
+    ops += deliver(p1, a, first, nodes[0]["outs"][0])
+    ops += deliver(p2, b, second, nodes[1]["outs"][0])
+    if idx % 2:
+        ops += deliver(p1, b, first, nodes[0]["outs"][0])
+    return {"fam": "eqv", "nodes": specs, "ops": ops,
+            "dims": {"pair": pair, "p1": p1, "p2": p2, "same": same, "order": order}}
+
+
+def _eqv_points():
+    return [(pr, p1, p2, same, order) for pr in range(len(EQ_PAIRS)) for p1 in EQ_PATH for p2 in EQ_PATH
+            for same in (True, False) for order in ("good-first", "bad-first")]
+
+
+# composites shipped by value with child inputs connected to outputs OUTSIDE them (oracle only)
+def _cx_case(kind, which, perm, states, mid, mode, idx):
+    specs = ["SrcU", "SrcU", kind]
+    nodes, _c, _l = layout(specs)
+    m, kid = 2, 3
+    mins = nodes[m]["ins"]
+    tgt = nodes[kid]["ins"][which]
+    outs = [nodes[j]["outs"][0] for j in range(2)]
+    vals = {0: (1, 2), 1: (102, 103), 2: (7, 8)}[which]
+    ops = [["set", mins[0], 9], ["set", mins[1], 101], ["set", mins[2], 5]]
+    for j in perm:
+        if states[j] == "data":
+            ops.append(["set", outs[j], vals[j]])
+    ops += [["connect", tgt, outs[j]] for j in perm]
+    ops.append(["runx", m, [], [], mode])
+    if mid == "upchange":
+        ops += [["set", outs[j], vals[1 - j]] for j in perm]
+    elif mid == "upclear":
+        ops += [["set", outs[j], "ND"] for j in perm]
+    ops += [["complete", m], ["run", m, [], []]]
+    return {"fam": "cx", "nodes": specs, "ops": ops,
+            "dims": {"kind": kind, "which": which, "perm": list(perm), "states": list(states), "mid": mid, "mode": mode}}
+
+
+def _cx_points():
+    pts = []
+    for kind in ("MU", "M3"):
+        for which in (0, 1, 2):
+            for perm in ((0,), (0, 1), (1, 0)):
+                for states in itertools.product(("data", "nd"), repeat=2):
+                    for mid in ("none", "upchange", "upclear"):
+                        for mode in ("pickle", "cloud"):
+                            pts.append((kind, which, perm, states, mid, mode))
+    return pts
+
+
 def _adv_points():
     pts = []
     for v in ADV:
@@ -1293,6 +1456,8 @@ def gen_cases(rng, tier):
     upp, mup = _uprun_points(), _mut_points()
     rpp = _repl_points()
     fop = _for_points()
+    cmp_, eqp = _cm_points(), _eqv_points()
+    cxp = _cx_points()
     if tier == "quick":
         ridx = sorted(rng.sample(range(len(rtp)), 280))
         aidx = sorted(rng.sample(range(len(advp)), 330))
@@ -1305,6 +1470,9 @@ def gen_cases(rng, tier):
         muidx = range(len(mup))
         rpidx = sorted(set(rng.sample(range(len(rpp)), 100)) | {i for i, pt in enumerate(rpp) if pt[0] == "macro" and i % 2})
         foidx = sorted(rng.sample(range(len(fop)), 84))
+        cmidx = sorted(rng.sample(range(len(cmp_)), 140))
+        eqidx = sorted(rng.sample(range(len(eqp)), 140))
+        cxidx = sorted(rng.sample(range(len(cxp)), 90))
         small = [i for i, pt in enumerate(prod) if pt[0] <= 2]
         big = [i for i, pt in enumerate(prod) if pt[0] > 2]
         pidx = small + sorted(rng.sample(big, 900))
@@ -1322,6 +1490,9 @@ def gen_cases(rng, tier):
         uidx, muidx = range(len(upp)), range(len(mup))
         rpidx = range(len(rpp))
         foidx = range(len(fop))
+        cmidx = sorted(rng.sample(range(len(cmp_)), 4000))
+        eqidx = range(len(eqp))
+        cxidx = range(len(cxp))
     off = rng.randrange(10_000)
     for i in pidx:
         yield _prod_case(*prod[i], idx=i + off)
@@ -1351,6 +1522,12 @@ def gen_cases(rng, tier):
         yield _mut_case(*mup[i], idx=i + off)
     for i in foidx:
         yield _for_case(*fop[i], idx=i + off)
+    for i in cmidx:
+        yield _cm_case(*cmp_[i], idx=i + off)
+    for i in eqidx:
+        yield _eqv_case(*eqp[i], idx=i + off)
+    for i in cxidx:
+        yield _cx_case(*cxp[i], idx=i + off)
     for i in rpidx:
         pt = rpp[i]
         yield (_repl_case if pt[0] == "wf" else _repl_macro_case)(*pt[1:], idx=i + off)
@@ -1683,6 +1860,8 @@ def run_impl(case):
                 cobj[op[1]].value_receiver = None if op[2] is None else cobj[op[2]]
             elif kind == "connect":
                 cobj[op[1]].connect(cobj[op[2]])
+            elif kind == "connectm":
+                cobj[op[1]].connect(*[cobj[b] for b in op[2]])
             elif kind == "disconnect":
                 cobj[op[1]].disconnect(cobj[op[2]])
             elif kind == "copyio":
@@ -1711,6 +1890,8 @@ def run_impl(case):
                     sched.jobs.remove(job)
                     _run_job(job)  # the done-callback (`_finish_run`) runs here; what it raises is swallowed by the future
                     res = "completed"
+                    if nodes[op[1]]["kids"]:
+                        resolve()  # a composite merged back from its copy holds the returned children
             elif kind == "replace":
                 # node op[1] (a function node that is the child of a workflow or of a macro) is replaced by a fresh
                 # instance of its class: by instance through the parent / through the node, or by class assignment
@@ -2004,7 +2185,54 @@ def _oracle_for(case, r):
     return fails
 
 
+def _oracle_cx(case, r):
+    """a composite shipped BY VALUE to an executor: its copy cannot reach outputs outside it, so what its children
+    would fetch from there is decided when the job is submitted — by the same rule as any fetch: the most recently
+    connected outside partner that holds data, else the child keeps its own value; the child's function then runs (on
+    the copy) with exactly that, or is not called at all if its gate refuses"""
+    nodes, chans, _links = layout(case["nodes"])
+    states = r["states"]
+    fails, stamps, exp = [], {}, {}
+    for k in range(1, len(states)):
+        pre, post = states[k - 1], states[k]
+        op, res = post["op"], post["res"]
+        pv = [_val(x) for x in pre["vals"]]
+        new_calls = [(c[0], list(c[1])) for c in post["calls"][len(pre["calls"]):]]
+        if op[0] == "runx" and nodes[op[1]]["kids"]:
+            kid = nodes[nodes[op[1]]["kids"][0]]
+            want = []
+            for i in kid["ins"]:
+                w = _winner(stamps, pv, i, pre["conns"][i])
+                want.append(pv[w] if w is not None else pv[i])
+            ok = all(v != "ND" and (not pre["strict"][i] or admit(chans[i]["hint"], v)) for i, v in zip(kid["ins"], want))
+            if res == "submitted":
+                exp[op[1]] = (kid["id"], [str(v) for v in want], ok)
+            if new_calls:
+                fails.append(_f("gate-open", k, op, f"a function ran at submission: {new_calls}"))
+        if op[0] == "complete" and op[1] in exp:
+            kid_id, want, ok = exp.pop(op[1])
+            if ok and new_calls != [(kid_id, want)]:
+                fails.append(_f("fetch-priority", k, op, f"the child's function received {new_calls}; the most recent "
+                                                       f"outside partners holding data at submission give {want}",
+                                shipped=True))
+            if not ok and new_calls:
+                fails.append(_f("gate-open", k, op, f"child called with {new_calls} although its gate refuses {want}",
+                                shipped=True))
+        for c in range(len(chans)):
+            before, after = set(pre["conns"][c]), set(post["conns"][c])
+            for o in after - before:
+                stamps.setdefault((c, o), (k, 0))
+            for o in before - after:
+                if op[0] != "complete":
+                    stamps.pop((c, o), None)
+        if fails:
+            break
+    return fails
+
+
 def nontrivial(case, r):
+    if case.get("fam") == "cx":
+        return any(s_["res"] == "completed" for s_ in r.get("states", [])[1:])
     if case.get("fam") == "for":
         return any(s_["res"] in ("ok", "Readiness") for s_ in r.get("states", [])[1:] if s_["op"][0] == "run")
     for s in r.get("states", [])[1:]:
@@ -2045,12 +2273,13 @@ def _rtline(nodes, chans, roots, with_wf):
 
 
 def corr_view(case, impl):
-    """for-node cases are judged by the oracle alone (their dynamic body is not in the Lean model)"""
-    return None if case.get("fam") == "for" else impl["obs"]
+    """for-node cases and composites shipped to an executor are judged by the oracle alone (the dynamic body / the
+    merge-back of the returned copy are not in the Lean model)"""
+    return None if case.get("fam") in ("for", "cx") else impl["obs"]
 
 
 def model_input(case, impl=None):
-    if case.get("fam") == "for":
+    if case.get("fam") in ("for", "cx"):
         return []
     nodes, chans, links, wires = layout(case["nodes"], full=True)
     lines = []
@@ -2108,6 +2337,8 @@ def model_input(case, impl=None):
             lines.append(f"link {op[1]} {'-' if op[2] is None else op[2]}")
         elif k in ("connect", "disconnect"):
             lines.append(f"{k} {op[1]} {op[2]}")
+        elif k == "connectm":
+            lines.append(f"connectm {op[1]} " + " ".join(map(str, op[2])))
         elif k == "copyio":
             dst, src = nodes[op[1]], nodes[op[2]]
             parts = []
@@ -2384,6 +2615,8 @@ def oracle(case, r):
         return []
     if case.get("fam") == "for":
         return _oracle_for(case, r)
+    if case.get("fam") == "cx":
+        return _oracle_cx(case, r)
     nodes, chans, _links = layout(case["nodes"])
     states = r["states"]
     fails = []
@@ -2432,6 +2665,11 @@ def oracle(case, r):
             for pos, (c, a) in enumerate(_items(nodes, op)):
                 if isinstance(a, str) and a.startswith("@"):
                     order[(c, int(a[1:]))] = pos
+        if kind == "connectm":
+            # one call, several partners: they are connected in the order of the call, the last one most recently
+            for pos, b in enumerate(op[2]):
+                order.setdefault((op[1], b), pos)  # a partner listed twice is connected where it is listed first
+                order.setdefault((b, op[1]), pos)
         for c in range(len(chans)):
             before, after = set(pre["conns"][c]), set(post["conns"][c])
             for o in after - before:
